@@ -38,7 +38,7 @@ op_strategy = st.one_of(
     st.fixed_dictionaries({"op": st.just("child"), "parent": st.integers(0, 30), "id": st.sampled_from(IDS), "type": _type, "sel": _sel}),
     st.fixed_dictionaries({"op": st.just("bad"), "kind": st.sampled_from(["dup-id", "foreign-arch", "foreign-arch", "misaligned-uid", "ancestor", "ancestor", "self",
                                                                             "elsewhere", "malformed-id", "blank-name", "unknown-type", "empty-arches", "top-misaligned",
-                                                                            "recover", "recover", "dup-dashed-id", "dup-dashed-id", "dup-uid-top", "dup-uid-top", "child-again-at-top", "again-under-another-key", "again-under-another-key"]),
+                                                                            "recover", "recover", "dup-dashed-id", "dup-dashed-id", "dup-uid-top", "dup-uid-top", "child-again-at-top", "again-under-another-key", "again-under-another-key", "subtree", "subtree", "subtree"]),
                            "target": st.integers(0, 30), "other": st.integers(0, 30), "id": st.sampled_from(IDS)}),
     st.just({"op": "roundtrip"}),
     st.sampled_from([{"op": "roundtrip", "via": "deepcopy"}, {"op": "roundtrip", "via": "pickle"}]),      # the forest goes on as a copy of itself
@@ -278,6 +278,35 @@ def history_case(case):
                 key = [k for k in (t, forest.nodes[t]["id"], "Other") if k not in have][0]
                 refuses("add-again-under-another-key", (ValueError,), ci.variants.add, objs[t], key)
                 labels.add("refused:again-under-another-key")
+            elif bad == "subtree":
+                # a subtree put together while its root is still detached (bottom-up), then offered to the compose as a whole.  With
+                # a dashed top-level variant spelling the UID of one of its members (at depth 1 or 2) it has to be refused as a whole;
+                # without one it is accepted and every member is findable
+                r, c, g = "Zr%d" % step, "Zc", "Zg"
+                chain = [r, "%s-%s" % (r, c), "%s-%s-%s" % (r, c, g)]
+                collide = [None, 1, 2][op["other"] % 3]
+                grand = new_variant(ci, g, chain[2], "addon", ["x86_64"])
+                child = new_variant(ci, c, chain[1], "variant", ["x86_64"])
+                root = new_variant(ci, r, r, "variant", ["x86_64"])
+                must("build-detached-subtree", child.add, grand)
+                must("build-detached-subtree", root.add, child)
+                if collide is not None:
+                    # the twin arrives after the subtree was put together and before it is attached
+                    dup = chain[collide]
+                    must("add-dashed-top", ci.variants.add, new_variant(ci, dup.replace("-", ""), dup, "variant", ["x86_64"]))
+                    forest.nodes[dup] = {"id": dup.replace("-", ""), "uid": dup, "type": "variant", "arches": ["x86_64"], "parent": None, "dashed": True}
+                    before = structure(ci)
+                if collide is None:
+                    must("add-detached-subtree", ci.variants.add, root)
+                    forest.nodes[chain[0]] = {"id": r, "uid": chain[0], "type": "variant", "arches": ["x86_64"], "parent": None}
+                    forest.nodes[chain[1]] = {"id": c, "uid": chain[1], "type": "variant", "arches": ["x86_64"], "parent": chain[0]}
+                    forest.nodes[chain[2]] = {"id": g, "uid": chain[2], "type": "addon", "arches": ["x86_64"], "parent": chain[1]}
+                    labels.add("depth3")
+                    labels.add("subtree-added-as-a-whole")
+                    before = structure(ci)
+                else:
+                    refuses("add-subtree-with-duplicate-uid", (ValueError,), ci.variants.add, root)
+                    labels.add("refused:subtree-duplicate-uid")
             elif bad == "dup-dashed-id":
                 # a second top-level variant with the id of an existing dashed one ('ServerTools' of 'Server-Tools'): duplicate id
                 dashed = sorted(u for u in uids if forest.nodes[u].get("dashed"))
